@@ -33,6 +33,20 @@ def post_solve_ops(rng, plan, k=4):
         if fn is not None and pts and rng.random() < 0.7:
             ops.append({"op": "oracle", "out": [nm("g"), nm("v")], "f": fn, "x": rng.choice(pts)})
 
+    P = next((o["out"] for o in plan["ops"] if o["op"] == "pep"), None)
+    if P is not None and rng.random() < 0.5:
+        tau = nm("tau")
+        ops.append({"op": "getobjective", "P": P, "out": tau})
+        exs.append(tau)
+        if exs and rng.random() < 0.8:
+            # e.g. the slack of a metric: metric - objective, or a multiple of the objective
+            out = nm("e")
+            ops.append({"op": "elin", "out": out, "terms": [[rng.choice(exs), 1.0], [tau, -1.0]]})
+            exs.append(out)
+            out2 = nm("e")
+            ops.append({"op": "elin", "out": out2, "terms": [[tau, 2.0]], "const": 0.5})
+            exs.append(out2)
+
     for _ in range(k):
         c = rng.randrange(5)
         if c == 0 and len(pts) >= 2:
